@@ -109,6 +109,8 @@ def classify(ctx, tie, mm):
         'f2i16': 'celt_float2int16 (the 16-bit output conversion of opus_decode) differs from '
                  'saturate(round-half-even(32768*v)) on some element of this array',
     }.get(op, 'conversion differs from the proved specification')
+    if op == 'projf' and mm.get('impl') not in ('SANITIZER', 'ABORT', 'SIGSEGV'):
+        return None     # a different but equally rounded float path is not a property violation; S4 proj judges tracking
     if mm.get('impl') in ('SANITIZER', 'ABORT', 'SIGSEGV'):
         why = 'the conversion trapped (%s) on this input' % mm.get('impl')
     elif op == 'proj' and len(toks) >= 4:
